@@ -70,11 +70,36 @@ theorem f030_schedule_unfixed_counterexample :
       (fun s => s.woken 1 && s.sync.contains 1 && !s.dropped 1 && (s.rt == .wait) && rtStuck s && allIdle s) = true := by
   decide
 
-/-- the same interleaving under the repaired `Remote::schedule` (one more step of thread 1: the wake-up after
-the push): the runtime thread is not stuck -/
+/-- the same interleaving under the repaired `Remote::schedule` (thread 1's third step is now the wake-up after
+the push; one more step to finish the call): the flag is NOTIFIED, `reset` reports it, the runtime thread is not stuck -/
 theorem f030_fixed_same_trace :
     check (run (init { cfgF030 with rewake := true }) (traceF030 ++ [.w 1]))
       (fun s => s.woken 1 && s.sync.contains 1 && (s.rt == .wait) && !rtStuck s && allIdle s) = true := by
+  decide
+
+/-! ### side observation (task life cycle, C04/C05 territory): a cancelled task stranded outside every queue
+
+Code as it is now (both repairs in). Queue of capacity 1, full. Thread 1 wakes task 1: it sets SCHEDULED, reserves,
+finds the queue full, wakes the driver and spins. Thread 2 runs a remote `cancel()` of task 1 (`Task::cancel` =
+`schedule()` then `set_cancelled`): its `schedule()` sees SCHEDULED and returns at once (coalesced), then the
+CANCELLED bit is set. Thread 1 now sees `is_cancelled()` in its spin loop, releases its reservation and returns
+WITHOUT pushing. Task 1 is cancelled, SCHEDULED, not dropped, and in no queue; every later wake is coalesced
+(SCHEDULED stays set), so `tick` never runs it and its future is dropped only by `Executor::clear` (executor drop).
+Not a lost wake in the sense of C03 (the statement excludes cancelled tasks), recorded as an observation. -/
+
+def cfgStrand : Cfg := { drv := .iour, loop := .own, q := 1, maxInt := 61, nw := 3, flushArms := true, rewake := true }
+
+def traceStrand : List Event :=
+  [.wStart 0 (.task 0), .w 0, .w 0, .w 0, .w 0, .w 0, .w 0, .w 0,      -- task 0 queued: the queue is full
+   .wStart 1 (.task 1), .w 1, .w 1, .w 1, .w 1, .w 1, .w 1,            -- thread 1: SCHEDULED, reserve, full, wake, spin
+   .wStart 2 (.task 1), .w 2, .w 2,                                     -- cancel()'s own schedule(): coalesced
+   .cancel 1,                                                           -- set_cancelled
+   .w 1, .w 1]                                                          -- thread 1 bails out: fetch_sub, finish
+
+theorem cancelled_task_stranded_witness :
+    check (run (init cfgStrand) traceStrand)
+      (fun s => Compio.Gen.TaskState.isScheduled (s.word 1) && Compio.Gen.TaskState.isCancelled (s.word 1) &&
+        !s.dropped 1 && !s.sync.contains 1 && !s.hot.contains 1 && allIdle s && (s.pending == 1) && !s.uflow) = true := by
   decide
 
 end Compio.Cex.C03
